@@ -280,6 +280,45 @@ def h_shared_parser(E, length):
     return 'ok'
 
 
+def h_debug_mix(E):
+    """list graders and their subgraders with debug switched on or off independently, the subgrader used on its own before or not: the list call grades
+    the same way in all combinations (the verdict does not depend on which instance created a debug log earlier)"""
+    import mitxgraders as m
+    from mitxgraders.exceptions import MITxError
+    parent_debug = E.fork_bool('parent_debug')
+    sub_debug = E.fork_bool('sub_debug')
+    solo_first = E.fork_bool('subgrader_called_on_its_own_first')
+    kind = E.choice('subgrader', ['formula', 'numerical', 'string', 'two-formula-subgraders'])
+    S = make_sym_sampler(E, 'x', 1, 2)
+    if kind == 'formula':
+        sub = m.FormulaGrader(variables=['x'], sample_from={'x': S()}, samples=1, debug=sub_debug)
+        answers, right = ['x', '2*x'], ['x+0', 'x+x']
+    elif kind == 'numerical':
+        sub = m.NumericalGrader(debug=sub_debug)
+        answers, right = ['1', '2'], ['1.0', '2.0']
+    elif kind == 'string':
+        sub = m.StringGrader(debug=sub_debug)
+        answers, right = ['cat', 'dog'], ['cat', 'dog']
+    else:
+        sub = [m.FormulaGrader(variables=['x'], sample_from={'x': S()}, samples=1, debug=sub_debug), m.FormulaGrader(variables=['x'], sample_from={'x': S()}, samples=1, debug=not sub_debug)]
+        answers, right = ['x', '2*x'], ['x+0', 'x+x']
+    if solo_first:
+        for sg in (sub if isinstance(sub, list) else [sub]):
+            try:
+                sg(answers[0], right[0])
+            except MITxError:
+                pass
+    g = m.ListGrader(answers=answers, subgraders=sub, ordered=True, debug=parent_debug)
+    for inputs, want in ((right, [True, True]), ([right[0], 'zz' if kind == 'string' else '77'], [True, False])):
+        try:
+            r = g(None, list(inputs))
+            E.check('list-verdict-independent-of-debug-switches-and-history', [e['ok'] for e in r['input_list']] == want)
+            E.check('debug-log-only-when-the-list-grader-has-debug', ('MITx Grading Library Version' in r['overall_message']) == parent_debug)
+        except MITxError:
+            E.check('list-verdict-independent-of-debug-switches-and-history', False)
+    return 'ok'
+
+
 def h_scopes(E):
     """the variable/function scopes handed to the evaluator are not altered, whatever the outcome"""
     from mitxgraders.helpers.calc.expressions import evaluator
@@ -369,6 +408,7 @@ def harnesses(tier):
         add(h_author_config, 'author_config', dict(cls=cls), 'construction + repeated grading')
     for cls in ('string', 'formula', 'list', 'item-base'):
         add(h_registered_defaults, 'registered_defaults', dict(cls=cls), 'kwargs / dict / empty / overriding configuration', validate=False)
+    add(h_debug_mix, 'debug_mix', {}, 'parent debug x subgrader debug x prior solo call x 4 subgrader kinds, symbolic samples', validate=False)
     add(h_shared_parser, 'shared_parser', dict(length=2), 'all sequences of 2 failing or fine calls (7 kinds) on one grader, each followed by a fresh string on another grader', validate=False)
     add(h_scopes, 'scopes', {}, '9 formulas incl. failing ones, symbolic variable value')
     add(h_negative_power_switch, 'negative_power_switch', {}, 'all sequences of 3 calls over 2 graders x 6 inputs', validate=False)
